@@ -364,9 +364,10 @@ def pysnmp_denotation(cls, prim, enum):
         if prim in ('int', 'enum'):
             if isinstance(val, str) and enum and val in enum:
                 return ('int', enum[val])
-            if attr == 'defaultValue' or isinstance(val, int):
-                return ('int', int(val))
-            return ('int', int(val, 16 if attr == 'defaultHexValue' else 2))
+            if attr != 'defaultValue':
+                # pyasn1's Integer knows neither defaultHexValue nor defaultBinValue: the default would be lost on loading
+                return ('undecodable', 'integer default given as %s' % attr)
+            return ('int', int(val))
         if prim == 'octets':
             if attr == 'defaultHexValue':
                 return ('octets', bytes.fromhex(val))
@@ -375,7 +376,8 @@ def pysnmp_denotation(cls, prim, enum):
             return ('octets', val.encode('utf-8') if isinstance(val, str) else bytes(val))
         if prim == 'oid':
             if isinstance(val, str):
-                val = ast.literal_eval(val) if val.strip().startswith('(') else tuple(int(x) for x in val.split('.'))
+                # a class attribute that is a STRING is taken character by character by pyasn1: not an OID value
+                return ('undecodable', 'OID default given as the string %r' % val)
             return ('oid', tuple(val))
         if prim == 'bits':
             en = enum or {}
